@@ -65,6 +65,11 @@ def run(eng, ctx):
     g_or = fr["crc24q"]["poly"]
     g = SH.crc_transfer(eng, ctx, "C08.D1")
     ctx.instance("loop bodies interpreted", 1, 1)
+    # the 3-byte form of the checksum helper is the remainder, packed big-endian, for every byte string (C07-D1, shared)
+    from .C07 import helper_bodies
+
+    ctx.rule("C07.D1", "crc2bytes(x) = calc_crc24q(x).to_bytes(3, 'big') for every x (no special case for inputs whose remainder is zero)")
+    helper_bodies(eng, ctx, only=("CRC",))
 
     # ---------------- D2 algebra on the generator implied by the code
     ctx.rule("C08.D2", "generator (implied by the analysed transfer function): degree 24, non-zero constant term, even weight (factor x+1), "
